@@ -114,6 +114,10 @@ def run_impl(c):
         for o, x in zip((a, b), c.get("xp", (None, None))):
             if x is not None:
                 o.extended_properties["verif_note"] = x
+        for o, d in zip((a, b), c.get("delkey", (False, False))):
+            if d and STRS[c["u1"] if o is a else c["u2"]] == "":
+                # the units entry removed through the dictionary view: the units are "" as before
+                o.extended_properties.pop("NI_UnitDescription", None)
         out = {"eq": bool(a == b), "ne": bool(a != b)}
         for name, f in (("lt", lambda: a < b), ("le", lambda: a <= b), ("gt", lambda: a > b), ("ge", lambda: a >= b)):
             out[name] = vf.try_impl(lambda: bool(f()))
@@ -151,8 +155,14 @@ def run_impl(c):
                 # different lengths (never equal): one element against its repetition, empty against one, 2 against 3
                 n1, n2 = {"rep": (1, 3), "empty": (0, 1), "23": (2, 3), "rep_r": (3, 1)}[shape]
                 x1, y1, x2, y2 = np.full(n1, 1.0), np.full(n1, 3.0), np.full(n2, 1.0), np.full(n2, 3.0)
+            if c.get("nan"):
+                # an axis holding NaN is not equal to anything by value - not even to the very same array object
+                x1 = np.array([1.0, float("nan")]); y1 = np.array([3.0, 4.0])
+                x2, y2 = (x1, y1) if c["nan"] == "shared" else (x1.copy(), y1.copy())
             a = XYData(x1, y1, x_units="s", y_units="V")
             b = XYData(x2, y2, x_units="s" if c["sxu"] else "ms", y_units="V" if c["syu"] else "mV")
+            if c.get("nan") == "self":
+                b = a
             eq, ne = a == b, a != b
             if bool(eq) == bool(ne):
                 raise RuntimeError("== and != agree")
@@ -298,6 +308,8 @@ def gen_cases(rng, tier):
                     cases.append({"k": "cmp", "v1": v1, "u1": u1, "v2": v2, "u2": u2})
                     if rng.random() < 0.3:
                         cases[-1]["xp"] = rng.choice([[1, 2], [1, None], [None, "x"], [3, 3]])
+                    if (u1 == 0 or u2 == 0) and rng.random() < 0.5:
+                        cases[-1]["delkey"] = rng.choice([[True, False], [False, True], [True, True]])
     for v in vals + [["o", "none"], ["o", "list"], ["o", "bytes"], ["o", "complex"]]:
         cases.append({"k": "sinit", "v": v})
     for _ in range(700 if not big else 6000):
@@ -309,6 +321,8 @@ def gen_cases(rng, tier):
                       "via": rng.choice(["ctor", "ctor", "factory_copy", "factory_nocopy"])})
     for m in range(16):
         cases.append({"k": "xyeq", "sx": bool(m & 1), "sy": bool(m & 2), "sxu": bool(m & 4), "syu": bool(m & 8)})
+    for nan in ("shared", "copy", "self"):
+        cases.append({"k": "xyeq", "sx": False, "sy": True, "sxu": True, "syu": True, "nan": nan})
     for shape in ("rep", "empty", "23", "rep_r"):
         for m in (15, 11):
             cases.append({"k": "xyeq", "sx": True, "sy": True, "sxu": bool(m & 4), "syu": bool(m & 8), "shape": shape})
